@@ -17,7 +17,7 @@ MESSAGE_NODE = {
     "UndefinedProcedure": "CallStatement", "CallOfNoneProcedure": "CallStatement", "ArgumentsTypeMismatch": "CallStatement",
     "ArgumentMustBeAVariable": "CallStatement", "TooFewArguments": "CallStatement", "TooManyArguments": "CallStatement",
     "OperatorDifferentTypes": "BinaryExpression", "ComparisonNonInteger": "BinaryExpression",
-    "ArithmeticOperatorNonInteger": "BinaryExpression",
+    "ArithmeticOperatorNonInteger": ("BinaryExpression", "UnaryExpression"),
     "UndefinedVariable": "Variable", "NotAVariable": "Variable",
     "IndexingNonArray": "ArrayAccess", "IndexingWithNonInteger": "ArrayAccess",
     "UndefinedType": "TypeExpression", "NotAType": "TypeExpression",
@@ -90,9 +90,11 @@ def rule_message_site(prog):
                 continue  # a new message kind: VARIANTS still demands an emitting site and a text
             for b, node, parents in lst:
                 n += 1
-                out.add("error::%s::%s" % (enum, v), "is reported while checking a %s" % want, _is_about(prog, b, want, cmap), c.loc(node["sp"]),
+                wants = want if isinstance(want, tuple) else (want,)
+                out.add("error::%s::%s" % (enum, v), "is reported while checking a %s" % wants[0],
+                        any(_is_about(prog, b, w_, cmap) for w_ in wants), c.loc(node["sp"]),
                         "`%s` is constructed in `%s`, a function that is not about `%s` nodes: a diagnostic would name the wrong rule"
-                        % (v, b["d"], want), ("site",))
+                        % (v, b["d"], " / ".join(wants)), ("site",))
     # finer arm -> message tables
     call = [b for b in c.bodies if any(last(p_["res"].get("ctor_of", "")) == "TooFewArguments" for p_ in hir.nodes(b["body"], "Path"))
             and c.file_of(b["sp"]).startswith("spl_frontend/src/table")]
@@ -181,6 +183,60 @@ def rule_message_site(prog):
                                     ok = op == "!="
             n += 1
             out.add(bs[0]["d"], "%s is reported exactly when the condition's type is not boolean" % want, ok, c.loc(bs[0]["sp"]), "", ("arm",))
+    # every operator node checks its operands: the arm of the expression analysis that handles a Binary / Unary expression reaches
+    # (through the helpers it calls) the operator messages.  An arm that only forwards the operand's type accepts `-(1 < 2)`.
+    SEM = "spl_frontend::error::SemanticErrorMessage::"
+    need = {"Binary": {"OperatorDifferentTypes", "ComparisonNonInteger", "ArithmeticOperatorNonInteger"}, "Unary": {"ArithmeticOperatorNonInteger"}}
+    found_dispatch = False
+    for b in c.bodies:
+        if not b["p"].startswith("spl_frontend::table::semantic") or "/tests" in c.file_of(b["sp"]):
+            continue
+        for m_ in hir.nodes(b["body"], "Match"):
+            arms = {}
+            for a_ in m_["arms"]:
+                for v_ in hir.pat_variants_all(a_["pat"]):
+                    if v_.startswith("spl_frontend::ast::Expression::"):
+                        arms.setdefault(last(v_), []).append(a_)
+            if not ({"Binary", "Unary"} <= set(arms)) or "DataType" not in c.tstr(b.get("sig_out", 0) or 0):
+                continue
+            found_dispatch = True
+            for kind_, msgs in sorted(need.items()):
+                got = set()
+                for a_ in arms[kind_]:
+                    # (not through the dispatch itself: `u.expr.analyze(..)` re-enters it for the operand, whose checks are not the operator's)
+                    for x in hir.nodes_deep(prog, a_["body"], 2, {b["p"]}, crate=c):
+                        if x.get("k") == "Path" and x["res"].get("ctor_of", "").startswith(SEM):
+                            got.add(last(x["res"]["ctor_of"]))
+                n += 1
+                out.add(b["d"], "the operand(s) of a %s expression are type checked" % kind_.lower(), msgs <= got, c.loc(arms[kind_][0]["sp"]),
+                        "the analysis of a %s expression reaches only the messages %s (needed: %s): an operand of the wrong type passes "
+                        "unreported" % (kind_.lower(), sorted(got), sorted(msgs)), ("arm", "operand"))
+    if not found_dispatch:
+        out.missing("expression analysis dispatch (match on ast::Expression returning a DataType) in table::semantic")
+    # `expression combines different types` is decided by comparing the two operand types, not by one of them being int
+    for v_, lst in _ctor_sites(prog, "spl_frontend::error::SemanticErrorMessage").items():
+        if v_ != "OperatorDifferentTypes":
+            continue
+        for b, node, parents in lst:
+            ok = None
+            why = ""
+            for i_, pr_ in enumerate(parents):
+                cond = None
+                if pr_.get("k") == "Arm":
+                    if any(x.endswith("table::DataType::Int") for x in hir.pat_variants_all(pr_["pat"])):
+                        ok = False
+                        why = "the arm that reports it matches on DataType::Int"
+                    cond = pr_.get("guard")
+                elif pr_.get("k") == "If" and i_ + 1 < len(parents) and parents[i_ + 1] is pr_.get("then"):
+                    cond = pr_["cond"]
+                if cond is not None and ok is None:
+                    for bn in hir.nodes(cond, "Binary"):
+                        if bn["op"] in ("!=", "Ne") and not any("DataType::" in x["res"].get("ctor_of", "") for x in hir.nodes(bn, "Path")):
+                            ok = True
+            n += 1
+            out.add(b["d"], "`different types` is reported exactly when the two operand types differ", ok, c.loc(node["sp"]),
+                    "%s: two operands of different non-integer types (two array types, boolean and array) are reported with the "
+                    "`requires integer operands` rule instead" % why, ("arm", "operand"))
     if n < 27:
         out.missing("message construction sites (found %d)" % n)
     return out
